@@ -28,8 +28,8 @@ Proved here, for ALL inputs, all split points and all chunkings (no bounds):
                                       a value is returned without moving the decoder.
 
 Not proved (kept as `def … : Prop`, validated by the harness only): StackPointer / error pointers
-(`sim_pointers_full`), PeekKind with its cache (`sim_peek_full`); a fault inside SkipValue's token loop leaves the
-decoder part-way by design.
+(`sim_pointers_full`); a fault inside SkipValue's token loop leaves the decoder part-way by design.
+PeekKind with its cache IS proved: `sim_peek_full`, `fault_stutter_peek`.
 -/
 import JsonV.Lemmas.ResumeNum
 import JsonV.Lemmas.ResumeStr
@@ -37,6 +37,7 @@ import JsonV.Lemmas.ResumeLit
 import JsonV.Lemmas.ResumeWindow
 import JsonV.Lemmas.ResumeStreamRun
 import JsonV.Lemmas.ResumeStreamCalls
+import JsonV.Lemmas.ResumeStreamPeek
 
 namespace JsonV.Props.C05
 open JsonV JsonV.Model JsonV.Model.Resume JsonV.Model.Window
@@ -346,6 +347,53 @@ open JsonV.Model.Stream in
 example : Stream.runScript {} [.readValue, .readValue]
     (Stream.init [Event.chunk [0x5B, 0x31, 0x2C], Event.fault, Event.chunk [0x32, 0x5D]]) = [.fault, .tok 0x5B 0 5] := by decide +kernel
 
+/-! ## PeekKind and its cache
+
+`Stream.peekKind / readTokenP / readValueP` model `peekPos` / `peekErr` as the code does: PeekKind returns a cached kind,
+re-reads after a cached error; a read call returns a cached error once (it may be the transient I/O error) and clears
+the cache; with a cached position it skips the head of the call.  SkipValue runs on the decoder with the cache dropped. -/
+
+open JsonV.Model.Stream in
+/-- `sim_peek_full`.  For EVERY chunking and EVERY script over ReadToken / ReadValue / SkipValue / PeekKind the
+streaming decoder with its peek cache returns, call by call, what the decoder over the whole input returns (for
+PeekKind: the kind, 0 for an error that the next read call reports). -/
+theorem sim_peek_full (o : Validate.VOpts) (calls : List CallP) (cs : List Bytes) :
+    runScriptP o calls { s := Stream.init (cs.map Event.chunk) } = wholeScriptP o calls { r := cs.flatten } := by
+  have h := scriptP_sim o calls { s := Stream.init (cs.map Event.chunk) } { r := avail (cs.map Event.chunk) }
+    (simP_init _) (noFault_chunks cs) (by simp)
+  rw [avail_chunks] at h
+  exact h
+
+open JsonV.Model.Stream in
+/-- the same for any reader that does not fault -/
+theorem sim_peek_full_events (o : Validate.VOpts) (calls : List CallP) (es : List Event) (h : NoFault es) :
+    runScriptP o calls { s := Stream.init es } = wholeScriptP o calls { r := avail es } :=
+  scriptP_sim o calls _ _ (simP_init es) h (by simp)
+
+open JsonV.Model.Stream in
+/-- cache transparency: PeekKind calls can be deleted from a script without changing the other results (on the
+whole-input side PeekKind does nothing, and the streaming side equals it) -/
+theorem peek_transparent (o : Validate.VOpts) (calls : List CallP) (cs : List Bytes) :
+    (runScriptP o calls { s := Stream.init (cs.map Event.chunk) }).filter (fun x => match x with | .kind _ => false | _ => true) =
+    (wholeScriptP o calls { r := cs.flatten }).filter (fun x => match x with | .kind _ => false | _ => true) := by
+  rw [sim_peek_full]
+
+open JsonV.Model.Stream in
+/-- `fault_stutter` for PeekKind: a fault during PeekKind is cached (the decoders stay at the same point, the reader
+has fewer events left); the next ReadToken or ReadValue returns it, clears the cache and leaves the decoders at the
+same point, so the retried call continues as if no fault had occurred (`sim_peek_full_events` from there on). -/
+theorem fault_stutter_peek (o : Validate.VOpts) (p : PState) (ws : WState) (h : SimP p ws)
+    (hf : (peekKind p).2.peekErr = some .fault) :
+    SimP (peekKind p).2 ws ∧ (peekKind p).2.s.events.length < p.s.events.length ∧
+    (readTokenP o (peekKind p).2).1 = .fault ∧ SimP (readTokenP o (peekKind p).2).2 ws ∧
+    (readValueP o (peekKind p).2).1 = .fault ∧ SimP (readValueP o (peekKind p).2).2 ws :=
+  peek_fault_stutter o p ws h hf
+
+open JsonV.Model.Stream in
+/-- it happens: `[` then a fault: PeekKind returns 0, ReadToken returns the fault, the retried ReadToken succeeds -/
+example : runScriptP {} [.peekKind, .readToken, .readToken] { s := Stream.init [Event.fault, Event.chunk [0x5B]] } =
+    [.kind 0, .out .fault, .out (.tok 0x5B 0 1)] := by decide +kernel
+
 /-! ## Full statements that are NOT proved (validated by the harness: transcripts over all readers) -/
 
 /-- what the property observes beyond the results: `StackPointer`, and the JSONPointer of errors -/
@@ -359,16 +407,5 @@ chunking (needs a model of `objectNameStack` with its lazily copied buffer offse
 def sim_pointers_full (M : PointerModel) : Prop :=
   ∀ (cs : List Bytes) (calls : List Stream.Call),
     M.pointers (cs.map Stream.Event.chunk) calls = M.pointers [Stream.Event.chunk cs.flatten] calls
-
-/-- a decoder model with PeekKind and its cache (`peekPos`, `peekErr`) -/
-structure PeekModel where
-  run : List Stream.Event → List (Option Stream.Call) → List Stream.Out      -- `none` = PeekKind
-
-/-- `sim_peek_full`: scripts that also call PeekKind (the cached position and the cached error, which the next read
-call returns and clears) do not depend on the chunking; `fault_stutter` for PeekKind.  `Stream.peek` models PeekKind
-without the cache and `peek_sim` (Lemmas/ResumeStreamCalls) shows it finds the whole-input kind. -/
-def sim_peek_full (M : PeekModel) : Prop :=
-  ∀ (cs : List Bytes) (calls : List (Option Stream.Call)),
-    M.run (cs.map Stream.Event.chunk) calls = M.run [Stream.Event.chunk cs.flatten] calls
 
 end JsonV.Props.C05
